@@ -12,7 +12,7 @@ from typing import Any, Dict, List, Optional, Tuple
 
 import numpy
 
-from .. import core, model, seams
+from .. import prelude, core, model, seams
 from ..model import gen_poly
 from ..runner import NUMPOLY_DIR
 
@@ -84,7 +84,7 @@ def generate(rs: int, tier: str, index: int) -> dict:
     step = {"id": 0, "k": "sympy" if sympy_case else "text", "p": lit, "display": display, "all_orders": ch.chance(0.3),
             "reach": ch.weighted([(5, "direct"), (2, "nested"), (2, "set_inside")])}
     pols = POLICIES if tier == "thorough" else ["stable", ch.choice(POLICIES[1:])]
-    return {"property": ID, "run_seed": rs, "tier": tier, "policies": pols, "steps": [step]}
+    return {"property": ID, "run_seed": rs, "tier": tier, "prelude": prelude.gen_prelude(core.Chooser(rs, "prelude")), "policies": pols, "steps": [step]}
 
 
 # ---------------------------------------------------------------------------
@@ -409,6 +409,7 @@ def execute(plan: dict) -> dict:
         warnings.simplefilter("ignore")
         with numpy.errstate(all="ignore"):
             try:
+                prelude.run_prelude(plan.get("prelude"), runner.stats)
                 runner.run()
             finally:
                 numpoly.set_options(**defaults)
@@ -416,6 +417,10 @@ def execute(plan: dict) -> dict:
 
 
 def simplify(plan: dict):
+    if plan.get("prelude"):
+        yield dict(plan, prelude=None)
+        for i in range(len(plan["prelude"])):
+            yield dict(plan, prelude=plan["prelude"][:i] + plan["prelude"][i + 1:] or None)
     if len(plan["policies"]) > 1:
         for pol in plan["policies"]:
             yield dict(plan, policies=[pol])
